@@ -5973,6 +5973,16 @@ class CodegenCtx:
                 # DONE leaves the start pointer on the last character read
                 transition_body.add("--(*start);" if ProgramData.do(ProgramFlag.INDIRECT_START_PTR) else "--start;")
             transition_body.add(f"return {self.program_name.upper()}_DONE;")
+        # At the end of input, a break among the actions may have sent the machine somewhere else than the transition's own target
+        elif from_end and any(x.get_target_override_mode() != ActionOverrideMode.NONE for x in transition.actions):
+            transition_body.add("// the actions may have changed the state: report where the machine ended up")
+            transition_body.add("switch (state->state) {")
+            for accept_idx in sorted(self.dfa.states.index(x) for x in self.dfa.accepting_states if x in self.dfa.states):
+                transition_body.add(f"case {accept_idx}:")
+            if any(x in self.dfa.states for x in self.dfa.accepting_states):
+                transition_body.add(f"    return {self.program_name.upper()}_DONE;")
+            transition_body.add(f"default: return {self.program_name.upper()}_FAIL;")
+            transition_body.add("}")
         # At the end of input there is no "next call" to report DONE from
         elif from_end and transition.target in self.dfa.accepting_states:
             transition_body.add("// reached an accept state at the end of input")
